@@ -123,9 +123,12 @@ pub async fn execute_builtin<S: Runtime + 'static>(
 
             // These futures live only in this inner scope so that the borrow
             // of `caught` and `env` ends before they are used again below.
-            match select(builtin_fut, sigint_fut).await {
-                SelectResult::Left((result, _sigint_fut)) => Some(result),
-                SelectResult::Right(((), _builtin_fut)) => None,
+            // The signal future goes first: it is polled before the built-in on
+            // every wake-up, so signals caught in the wake-up in which the
+            // built-in finishes are still recorded in `caught`.
+            match select(sigint_fut, builtin_fut).await {
+                SelectResult::Left(((), _builtin_fut)) => None,
+                SelectResult::Right((result, _sigint_fut)) => Some(result),
             }
         };
 
